@@ -14,6 +14,9 @@
 (*   r7  a node that answers storage / code / balance / eth_call queries   *)
 (*       on eight other goroutines WHILE it executes and commits each      *)
 (*       block (Replicas.tla: hidden input `q`, mode "sharedscratch")      *)
+(*   r8  a node started with --evm.tracer access_list                       *)
+(*   r9  another process started with --evm.tracer json: the long-running  *)
+(*       message of the history (a 6M-gas tight loop) takes seconds there  *)
 (* each at another wall-clock instant and with another hash-map seed.      *)
 (* Lines: History (starts a trace), Block (replica, height, app hash,      *)
 (* per-transaction code / codespace / data / gas wanted / gas used /       *)
